@@ -85,7 +85,11 @@ def run(tier, seed):
         s = tq.build_series(m0, steps)
         if s:
             series.append(s)
-    tasks = [(m0, s, t, sets) for s in series for t in (1, 2)]
+    # failing hunks in many shapes of mismatch: the failure diagnostics (closest match, hints) run only without -q
+    verb_sets = [o for o in sets if '--mmap' not in o and '--stats' not in o and '-A' not in o and '--color' not in o]
+    shapes = tq.failing_shapes(m0, 'e/i') + (tq.failing_shapes(m0, 'f') if tier != 'quick' else [])
+    shape_series = [[tq.Patch([fp])] for fp in shapes] + [[tq.Patch([tq.t_mod(m0, tq.Fresh(), 'd/g'), fp])] for fp in shapes[::3]]
+    tasks = [(m0, s, t, sets) for s in series for t in (1, 2)] + [(m0, s, t, verb_sets) for s in shape_series for t in (1, 2)]
     acc = wsweep.Acc(res)
     for i, r in enumerate(wsweep.pmap(case, tasks)):
         if i % 97 == 0:
@@ -95,8 +99,9 @@ def run(tier, seed):
     acc.finish('sweep')
     cov = res.coverage
     cov['series'] = len(series)
+    cov['failing_hunk_shapes'] = len(shapes)
     cov['option_sets'] = len(sets)
     cov['rule'] = ('workspaces of the C05 alphabet extended with a zero-length source file and zero-length patch files x all %d combinations of --mmap, {none,-q,-v,-vv}, '
-                   '--color {unset,always,never}, --stats, -A multiapply x threads {1,2}. Oracle (differential): exit class, tree, .pc and reject files equal those of the `-q` '
-                   'default-loader run of the same workspace. non-trivial = every non-reference run') % len(sets)
+                   '--color {unset,always,never}, --stats, -A multiapply x threads {1,2}; plus %d single failing hunks in systematic shapes of mismatch (a wrong / extra / missing line at each position, context past the end or before the start of the file, foreign hunks, far-off line numbers) x verbosity x threads. Oracle (differential): exit class, tree, .pc and reject files equal those of the `-q` '
+                   'default-loader run of the same workspace. non-trivial = every non-reference run') % (len(sets), len(shapes))
     return res
